@@ -41,6 +41,12 @@ def shapes(tier):
         out.append((f'ens3-ff{int(ff)}', ['Ens', ff, [['T', 'A', 1, 0, {}], ['T', 'B', 1, 3, {}], ['T', 'C', 1, 0, {}]]]))
         out.append((f'ensP-ff{int(ff)}', ['Ens', ff, [['P', 'A', 1, 0, {}], ['T', 'B', 1, 0, {}]]]))
         out.append((f'ens-then-stage-ff{int(ff)}', ['Seq', [['Ens', ff, [['T', 'A', 1, 0, {}], ['T', 'B', 1, 0, {}]]], ['T', 'D', 1, 0, {}]]]))
+    # an error (plain or EnsembleError) that has to cross two or three more process boundaries after the stage where it arose
+    out.append(('seq-PPP', ['Seq', [['P', 'A', 1, 0, {}], ['P', 'B', 1, 0, {}], ['P', 'C', 1, 0, {}]]]))
+    for ff in (True, False):
+        out.append((f'ensTP-then-P-ff{int(ff)}', ['Seq', [['Ens', ff, [['T', 'A', 1, 0, {}], ['P', 'B', 1, 0, {}]]], ['P', 'D', 1, 0, {}]]]))
+        out.append((f'ens-then-PP-ff{int(ff)}', ['Seq', [['Ens', ff, [['T', 'A', 1, 0, {}], ['T', 'B', 1, 0, {}]]], ['P', 'D', 1, 0, {}], ['P', 'E', 1, 0, {}]]]))
+    out.append(('P-ensPT-PTP', ['Seq', [['P', 'A', 1, 0, {}], ['Ens', False, [['P', 'B', 1, 0, {}], ['T', 'C', 1, 0, {}]]], ['P', 'D', 1, 0, {}], ['T', 'E', 1, 0, {}], ['P', 'F', 1, 0, {}]]]))
     return out
 
 
@@ -54,8 +60,9 @@ def gen_cases(tier, seed):
         for leaf in lv:
             sites.append([(leaf[1], 'reject')])
             sites.append([(leaf[1], 'poison' if leaf[3] else 'fail')])
-        if tree[0] == 'Ens' or (tree[0] == 'Seq' and tree[1][0][0] == 'Ens'):
-            members = [m[1] for m in (tree[2] if tree[0] == 'Ens' else tree[1][0][2])]
+        ens = tree if tree[0] == 'Ens' else next((ch for ch in tree[1] if ch[0] == 'Ens'), None) if tree[0] == 'Seq' else None
+        if ens is not None:
+            members = [m[1] for m in ens[2]]
             # subsets of members failing together (incl. all members)
             for r in range(2, len(members) + 1):
                 import itertools
@@ -74,7 +81,20 @@ def gen_cases(tier, seed):
         prc = [c for c in cases if SH.has_process(c['tree'])]
         rng.shuffle(prc)
         rng.shuffle(thr)
-        cases = thr[:260] + prc[:36]
+        # stratified by shape: every process shape is represented (failing plans first: 'none' positions are the least informative)
+        by_shape = {}
+        for c in prc:
+            by_shape.setdefault(c['shape'], []).append(c)
+        picked = []
+        k = 0
+        while len(picked) < 48 and any(by_shape.values()):
+            for name in sorted(by_shape):
+                lst = by_shape[name]
+                if lst:
+                    lst.sort(key=lambda c: c['positions'] == 'none')
+                    picked.append(lst.pop(0))
+            k += 1
+        cases = thr[:260] + picked[:48]
     rng.shuffle(cases)
     return cases
 
@@ -184,6 +204,13 @@ def run_case(case):
 
     from mpservice.multiprocessing.remote_exception import EnsembleError, RemoteException, is_remote_exception
 
+    data_crossed_process = False
+    if tree[0] == 'Seq':
+        seen_ens = False
+        for ch in tree[1]:
+            if seen_ens and SH.has_process(ch):
+                data_crossed_process = True
+            seen_ens = seen_ens or ch[0] == 'Ens'
     for toks in per_caller:
         for t in toks:
             i = (t[1], t[2])
@@ -208,6 +235,13 @@ def run_case(case):
                 continue
             excs = []
             walk_exceptions(y, excs)
+            if excs and not isinstance(y, BaseException) and data_crossed_process:
+                # a partially failed non-fail-fast ensemble *succeeds* with a list that holds the member's exception object; stages after
+                # the ensemble handle that list as their own data, and what a user's process worker returns is pickled as plain data --
+                # the statement is about outcomes delivered as exceptions, so embedded objects are only checked when no process stage follows
+                obs['embedded_exceptions_in_results_after_process_stage'] = obs.get('embedded_exceptions_in_results_after_process_stage', 0) + len(excs)
+                obs['failed_requests'] += 1
+                continue
             if isinstance(y, EnsembleError):
                 obs['ensemble_errors'] += 1
             if excs:
